@@ -398,9 +398,15 @@ def run_instant(ctx, mon):
             _call(ctx, lambda: f(n), inr, case, f"instant:from_unix_time_{name}", ok)
     span = IMAX - IMIN
     durs = [0, 1, -1, NS_DAY, -NS_DAY, span, -span, span + 1, -span - 1] + [rng.randint(-span, span) for _ in range(60)] + [gen.rand_mag(rng, -span, span) for _ in range(40)]
-    for n in vals[: (100 if ctx.tier == "quick" else 600)]:
+    def canon(r, exp):
+        """The result is the one canonical value for exp: equal to, ordered with, hashed like and zero nanoseconds away from the same instant built another way."""
+        w = ins(exp)
+        return ns_of(r) == exp and r == w and not (r != w) and hash(r) == hash(w) and r.compare_to(w) == 0 and (r - w).to_nanoseconds() == 0 and (w - r).to_nanoseconds() == 0
+    # every other instant on a 100 ns tick (so that the exact distances to the neighbouring UTC midnights are whole ticks as well)
+    for n in [v if k % 2 else v - v % 100 for k, v in enumerate(vals[: (100 if ctx.tier == "quick" else 600)])]:
         i = ins(n)
-        for d in durs:
+        to_next = NS_DAY - n % NS_DAY; to_prev = -(n % NS_DAY)
+        for d in durs + [to_next, to_next - 100, to_next + 100, to_prev, to_prev - 100, to_prev + 100, to_next + NS_DAY, to_prev - NS_DAY]:
             try:
                 dd = Duration.from_nanoseconds(d)
             except Exception:  # noqa: BLE001
@@ -417,13 +423,17 @@ def run_instant(ctx, mon):
                         ctx.V(f"C03:instant:{op}:out-of-range-returned", f"Instant {op} returned {r!r} for {case}; exact result {exp} outside range", case, repr(r), exp)
                     elif ns_of(r) != exp:
                         ctx.V(f"C03:instant:{op}", f"Instant {op} wrong for {case}", case, ns_of(r), exp)
+                    elif not canon(r, exp):
+                        ctx.V(f"C03:instant:{op}:not-canonical", f"Instant {op} for {case}: the result reports {exp} ns but is not equal to / ordered with / hashed like / zero away from the same instant built from the epoch", case, repr(r), exp)
                 _call(ctx, fn, inr, case, f"instant:{op}", ok)
             if d % 100 == 0:
                 exp = n + d; inr = IMIN <= exp <= IMAX
                 case = {"kind": "inst_arith", "op": "plus_ticks", "ns": n, "d": d}
                 _call(ctx, lambda: i.plus_ticks(d // 100), inr, case, "instant:plus_ticks",
                       lambda r, inr_, case=case, exp=exp: (ctx.V("C03:instant:plus_ticks:out-of-range-returned", f"plus_ticks returned out of range for {case}", case) if not inr_
-                                                            else (ns_of(r) != exp and ctx.V("C03:instant:plus_ticks", f"plus_ticks wrong for {case}", case, ns_of(r), exp))))
+                                                            else ((ns_of(r) != exp and ctx.V("C03:instant:plus_ticks", f"plus_ticks wrong for {case}", case, ns_of(r), exp))
+                                                                  or (ns_of(r) == exp and not canon(r, exp) and ctx.V("C03:instant:plus_ticks:not-canonical", f"plus_ticks for {case}: the result reports {exp} ns but is not equal to / ordered with / hashed like / zero away from the same instant built from the epoch", case, repr(r), exp))
+                                                                  or ctx.count("inst_plus_ticks"))))
         for m in vals[:40]:
             j = ins(m); ctx.ev()
             case = {"kind": "inst_diff", "a": n, "b": m}
